@@ -193,8 +193,32 @@ protected:
   template <class Str>
   void DoWriteString(const Str& val) {
     MakeScalarIfUnset();
-    wrt_.write("\"{}\"", val);
+    wrt_.write("\"{}\"", EscapeString(val));
     ++n_written_;
+  }
+
+  /// Escape characters which cannot appear in a JSON string
+  static std::string EscapeString(const std::string& val) {
+    std::string result;
+    result.reserve(val.size());
+    for (unsigned char c: val) {
+      switch (c) {
+      case '"': result += "\\\""; break;
+      case '\\': result += "\\\\"; break;
+      case '\n': result += "\\n"; break;
+      case '\r': result += "\\r"; break;
+      case '\t': result += "\\t"; break;
+      default:
+        if (c < 0x20) {
+          static const char* hex = "0123456789abcdef";
+          result += "\\u00";
+          result += hex[c >> 4];
+          result += hex[c & 15];
+        } else
+          result += (char)c;
+      }
+    }
+    return result;
   }
 
 private:
